@@ -290,4 +290,171 @@ theorem readEl_faithful_iff (e : Nat × Str × List (EPot ν)) (top : EPot ν) (
   · intro h
     rw [h]
 
+/-! ## the write order is a permutation with the highest momentum first -/
+
+theorem mem_insertPot (p x : EPot ν) (l : List (EPot ν)) : x ∈ insertPot p l ↔ x = p ∨ x ∈ l := by
+  induction l with
+  | nil => simp [insertPot]
+  | cons q qs ih =>
+    unfold insertPot
+    split
+    · simp
+    · simp only [List.mem_cons, ih]
+      constructor
+      · rintro (h | h | h) <;> simp [h]
+      · rintro (h | h | h) <;> simp [h]
+
+theorem mem_sortPots (ps : List (EPot ν)) (x : EPot ν) : x ∈ ps.foldr insertPot [] ↔ x ∈ ps := by
+  induction ps with
+  | nil => simp
+  | cons p ps ih => simp only [List.foldr_cons, mem_insertPot, ih, List.mem_cons]
+
+theorem insertPot_sorted (p : EPot ν) (l : List (EPot ν)) (h : l.Pairwise (fun a b => a.am ≤ b.am)) :
+    (insertPot p l).Pairwise (fun a b => a.am ≤ b.am) := by
+  induction l with
+  | nil => simp [insertPot]
+  | cons q qs ih =>
+    obtain ⟨hq, hqs⟩ := List.pairwise_cons.1 h
+    unfold insertPot
+    split
+    · rename_i hlt
+      refine List.pairwise_cons.2 ⟨?_, h⟩
+      intro x hx
+      rcases List.mem_cons.1 hx with rfl | hx'
+      · omega
+      · have := hq x hx'; omega
+    · rename_i hge
+      refine List.pairwise_cons.2 ⟨?_, ih hqs⟩
+      intro x hx
+      rcases (mem_insertPot p x qs).1 hx with rfl | hx'
+      · omega
+      · exact hq x hx'
+
+theorem sortPots_sorted (ps : List (EPot ν)) : (ps.foldr insertPot []).Pairwise (fun a b => a.am ≤ b.am) := by
+  induction ps with
+  | nil => simp
+  | cons p ps ih => exact insertPot_sorted p _ ih
+
+theorem dropLast_of_getLast? {α : Type} (l : List α) (a : α) (h : l.getLast? = some a) : l.dropLast ++ [a] = l := by
+  obtain ⟨ys, rfl⟩ := List.getLast?_eq_some_iff.1 h
+  simp
+
+theorem mem_writeOrder (ps : List (EPot ν)) (x : EPot ν) : x ∈ writeOrder ps ↔ x ∈ ps := by
+  unfold writeOrder
+  simp only
+  cases hl : (ps.foldr insertPot []).getLast? with
+  | none =>
+    have : ps.foldr insertPot [] = [] := List.getLast?_eq_none_iff.1 hl
+    have hx : x ∉ ps := fun hx => by
+      have := (mem_sortPots ps x).2 hx
+      rw [‹ps.foldr insertPot [] = []›] at this
+      cases this
+    simp [hx]
+  | some top =>
+    have hs := dropLast_of_getLast? _ top hl
+    rw [← mem_sortPots ps x]
+    generalize ps.foldr insertPot [] = S at hl hs ⊢
+    constructor
+    · intro h
+      rw [← hs]
+      rcases List.mem_cons.1 h with rfl | h
+      · simp
+      · simp [h]
+    · intro h
+      rw [← hs] at h
+      rcases List.mem_append.1 h with h | h
+      · exact List.mem_cons_of_mem _ h
+      · simp at h; simp [h]
+
+theorem foldl_max_le (l : List Nat) (m : Nat) (hle : ∀ x ∈ l, x ≤ m) : ∀ a, a ≤ m → l.foldl max a ≤ m := by
+  induction l with
+  | nil => intro a ha; simpa using ha
+  | cons x xs ih =>
+    intro a ha
+    simp only [List.foldl_cons]
+    exact ih (fun z hz => hle z (by simp [hz])) (max a x) (by have := hle x (by simp); omega)
+
+theorem le_foldl_max (l : List Nat) : ∀ a, a ≤ l.foldl max a ∧ ∀ x ∈ l, x ≤ l.foldl max a := by
+  induction l with
+  | nil => intro a; simp
+  | cons x xs ih =>
+    intro a
+    simp only [List.foldl_cons]
+    obtain ⟨h1, h2⟩ := ih (max a x)
+    refine ⟨by omega, ?_⟩
+    intro y hy
+    rcases List.mem_cons.1 hy with rfl | hy'
+    · omega
+    · exact h2 y hy'
+
+theorem foldl_max_eq (l : List Nat) (m : Nat) (hm : m ∈ l) (hle : ∀ x ∈ l, x ≤ m) (a : Nat) (ha : a ≤ m) :
+    l.foldl max a = m :=
+  Nat.le_antisymm (foldl_max_le l m hle a ha) ((le_foldl_max l a).2 m hm)
+
+/-- **`ElShape` from the natural hypotheses**: at least two potentials with pairwise different momenta -/
+theorem elShape_of_distinct (e : Nat × Str × List (EPot ν)) (hn : (e.2.2.map (·.am)).Nodup) (h2 : 2 ≤ e.2.2.length) :
+    ElShape e := by
+  have hsorted := sortPots_sorted e.2.2
+  have hlen : (e.2.2.foldr insertPot []).length = e.2.2.length := by
+    generalize e.2.2 = ps
+    induction ps with
+    | nil => rfl
+    | cons p ps ih =>
+      simp only [List.foldr_cons, List.length_cons]
+      have : ∀ (q : EPot ν) (l : List (EPot ν)), (insertPot q l).length = l.length + 1 := by
+        intro q l
+        induction l with
+        | nil => rfl
+        | cons r rs ihr => unfold insertPot; split <;> simp [ihr]
+      rw [this, ih]
+  cases hl : (e.2.2.foldr insertPot []).getLast? with
+  | none =>
+    have : e.2.2.foldr insertPot [] = [] := List.getLast?_eq_none_iff.1 hl
+    rw [this] at hlen; simp at hlen; omega
+  | some top =>
+    have hs := dropLast_of_getLast? _ top hl
+    have hw : writeOrder e.2.2 = top :: (e.2.2.foldr insertPot []).dropLast := by
+      unfold writeOrder; simp only [hl]
+    -- top is the maximum
+    have htop_mem : top ∈ e.2.2 := (mem_sortPots e.2.2 top).1 (by rw [← hs]; simp)
+    have hmax : ∀ x ∈ e.2.2, x.am ≤ top.am := by
+      intro x hx
+      have hx' := (mem_sortPots e.2.2 x).2 hx
+      rw [← hs] at hx' hsorted
+      rcases List.mem_append.1 hx' with h | h
+      · exact (List.pairwise_append.1 hsorted).2.2 x h top (by simp)
+      · simp at h; rw [h]; exact Nat.le_refl _
+    have hmaxam : maxAmOf e.2.2 = top.am := by
+      unfold maxAmOf
+      exact foldl_max_eq _ top.am (List.mem_map.2 ⟨top, htop_mem, rfl⟩)
+        (by intro x hx; obtain ⟨p, hp, rfl⟩ := List.mem_map.1 hx; exact hmax p hp) 0 (Nat.zero_le _)
+    refine ⟨top, (e.2.2.foldr insertPot []).dropLast, hw, hmaxam.symm, ?_, ?_⟩
+    · intro h0
+      have : (e.2.2.foldr insertPot []).length = 1 := by rw [← hs, h0]; simp
+      omega
+    · -- no other potential has the top momentum (momenta pairwise different)
+      intro r hr heq
+      rw [hmaxam] at heq
+      -- r and top are different positions of the sorted list, which is a permutation-with-distinct-momenta
+      have hnd : ((e.2.2.foldr insertPot []).map (·.am)).Nodup := by
+        have hperm : (e.2.2.foldr insertPot []).Perm e.2.2 := by
+          generalize e.2.2 = ps
+          induction ps with
+          | nil => exact List.Perm.refl _
+          | cons p ps ih =>
+            simp only [List.foldr_cons]
+            have hins : ∀ (q : EPot ν) (l : List (EPot ν)), (insertPot q l).Perm (q :: l) := by
+              intro q l
+              induction l with
+              | nil => exact List.Perm.refl _
+              | cons r rs ihr =>
+                unfold insertPot
+                split
+                · exact List.Perm.refl _
+                · exact (List.Perm.cons r ihr).trans (List.Perm.swap q r rs)
+            exact (hins p _).trans (List.Perm.cons p ih)
+        exact (List.Perm.nodup_iff (hperm.map (·.am))).2 hn
+      rw [← hs, List.map_append, List.nodup_append] at hnd
+      exact hnd.2.2 r.am (List.mem_map.2 ⟨r, hr, rfl⟩) top.am (by simp) heq
+
 end BSE.Nwchem
